@@ -700,8 +700,72 @@ fn t_stamps(e: &mut E, rng: &mut SplitMix64) {
     e.look(&["other renamed"]);
 }
 
+/// Several mount sessions on one volume, each of one kind — only allocating, only releasing (remove / truncate),
+/// only reading — with `stats` before every unmount and after every mount: what a session leaves in the FS-information
+/// sector is what the next one starts from.
+fn t_sessions(e: &mut E, rng: &mut SplitMix64) {
+    let cs = e.cx.vol.cs as usize;
+    let n = rng.range(3, 6) as usize;
+    e.mkdir("keep");
+    for i in 0..n {
+        let len = cs * (i % 3) + 1 + rng.below(cs as u64) as usize;
+        e.mkfile(&format!("keep/file{}.bin", i), content(rng, len));
+    }
+    e.mkdir("gone");
+    e.mkfile("gone/a.bin", content(rng, 2 * cs + 1));
+    e.mkfile("gone/b with a long name.bin", content(rng, cs));
+    e.cx.step(Op::Stats);
+    let mut alive: Vec<usize> = (0..n).collect();
+    for round in 0..rng.range(2, 4) {
+        // end the session one way or the other, start the next
+        if rng.chance(1, 4) {
+            e.cx.step(Op::DropFs);
+        } else {
+            e.cx.step(Op::Unmount);
+        }
+        if e.cx.dead || !e.cx.mount().is_ok() {
+            return;
+        }
+        e.cx.step(Op::Stats);
+        match (round + rng.below(2)) % 3 {
+            0 => {
+                // releasing only
+                if round == 0 {
+                    e.remove(0, "gone/a.bin");
+                    e.remove(0, "gone/b with a long name.bin");
+                    e.remove(0, "gone");
+                }
+                if alive.len() > 1 {
+                    let k = alive.remove(rng.below(alive.len() as u64) as usize);
+                    e.remove(0, &format!("keep/file{}.bin", k));
+                }
+                if let Some(&k) = alive.first() {
+                    let f = e.cx.new_f();
+                    if e.cx.step(Op::OpenFile { d: 0, path: b(&format!("keep/file{}.bin", k)), new: f }).is_ok() {
+                        e.cx.step(Op::Seek { f, whence: Whence::Start, n: rng.below(cs as u64 + 2) as i64 });
+                        e.cx.step(Op::Truncate(f));
+                        e.cx.step(Op::DropF(f));
+                    }
+                }
+            }
+            1 => {
+                // reading only
+                e.look(&["keep"]);
+                if let Some(&k) = alive.last() {
+                    e.try_open_file(0, &format!("keep/file{}.bin", k));
+                }
+            }
+            _ => {
+                // allocating only
+                e.mkfile(&format!("keep/new{}.bin", round), content(rng, cs + 1));
+            }
+        }
+        e.cx.step(Op::Stats);
+    }
+}
+
 fn one(id: String, seed: u64, n: u64, cat: &Catalogue, rng: &mut SplitMix64, sink: &mut Sink) {
-    let template = n % 11;
+    let template = n % 12;
     let clock = if template == 10 && rng.chance(1, 2) { ClockMode::Tick } else { ClockMode::Const };
     let vol = match template {
         1 => tiny_root16(cat, rng, 1024),
@@ -712,6 +776,14 @@ fn one(id: String, seed: u64, n: u64, cat: &Catalogue, rng: &mut SplitMix64, sin
                 tiny_any(cat, rng, 2048)
             } else {
                 rng.pick(&cat.mid).clone()
+            }
+        }
+        11 => {
+            // the FS-information sector exists on FAT32 only
+            if rng.chance(3, 4) {
+                rng.pick(&cat.fat32).clone()
+            } else {
+                any_small(cat, rng)
             }
         }
         _ => any_small(cat, rng),
@@ -729,6 +801,7 @@ fn one(id: String, seed: u64, n: u64, cat: &Catalogue, rng: &mut SplitMix64, sin
             7 => t_twohandle(&mut e, rng),
             8 => t_rewrite(&mut e, rng),
             9 => t_hugeseek(&mut e, rng),
+            11 => t_sessions(&mut e, rng),
             _ => t_stamps(&mut e, rng),
         }
     }
@@ -737,7 +810,7 @@ fn one(id: String, seed: u64, n: u64, cat: &Catalogue, rng: &mut SplitMix64, sin
 
 pub fn run(tier: Tier, seed: u64, rng: &mut SplitMix64, n_override: Option<u64>, sink: &mut Sink) {
     let cat = Catalogue::build();
-    let n = tier_count(tier, n_override, 308, 6160);
+    let n = tier_count(tier, n_override, 336, 6720);
     for i in 1..=n {
         let mut r = rng.fork();
         one(hist_id("edge", seed, i), seed, i, &cat, &mut r, sink);
